@@ -215,8 +215,20 @@ def check_table(job):
             lines.append("\\end\\")
             text = "\n".join(lines) + "\n"
             t2i = {v: k for k, v in tok.items()}
-            for base_e in (False, True):
-                got = parse_arpa_lm(io.StringIO(text), t2i, base_e)
+            for base_e, via_path in ((False, False), (True, False), (False, True), (True, True)):
+                if via_path:  # the path entry point must honour the same options as an open file
+                    import tempfile
+
+                    with tempfile.NamedTemporaryFile("w", suffix=".arpa", delete=False) as tf:
+                        tf.write(text)
+                    try:
+                        with warnings.catch_warnings():
+                            warnings.simplefilter("ignore")
+                            got = parse_arpa_lm(tf.name, t2i, base_e)
+                    finally:
+                        os.unlink(tf.name)
+                else:
+                    got = parse_arpa_lm(io.StringIO(text), t2i, base_e)
                 norm = math.log10(math.e) if base_e else 1.0
                 want = [dict() for _ in range(N)]
                 for k in range(1, N + 1):
@@ -235,7 +247,8 @@ def check_table(job):
                         if len(a) != len(b) or any(abs(x - y) > 1e-12 * max(1, abs(y)) for x, y in zip(a, b)):
                             ok = False
                 if not ok:
-                    bad("parse_arpa_lm", "entries", "parsed dictionaries differ from the listed entries (to_base_e=%r)" % base_e, dict(arpa=text))
+                    bad("parse_arpa_lm", "entries_via_path" if via_path else "entries",
+                        "parsed dictionaries differ from the listed entries (to_base_e=%r, %s)" % (base_e, "path" if via_path else "open file"), dict(arpa=text))
                     break
     except Exception as ex:
         bad("parse_arpa_lm", "exception", "raised %r" % ex)
